@@ -279,11 +279,15 @@ func (r *Reconciler) updateInstanceWithCurrentRS(logger logr.Logger, now time.Ti
 		}
 	}
 
-	if daemonset.Spec.Strategy.Canary == nil && newDaemonset.Status.Canary != nil {
-		// The canary strategy was removed while a canary was in progress: the canary is over, its
-		// nodes go back to the active replica set.
-		newDaemonset.Status.Canary = nil
-		newDaemonset.Status.Reason = ""
+	if daemonset.Spec.Strategy.Canary == nil {
+		if newDaemonset.Status.Canary != nil {
+			// The canary strategy was removed while a canary was in progress: the canary is over, its
+			// nodes go back to the active replica set.
+			newDaemonset.Status.Canary = nil
+			newDaemonset.Status.Reason = ""
+		}
+		// Without a canary strategy no canary is active: remove the canary annotations, also those
+		// left behind when an earlier reconcile was interrupted after its status update.
 		updateDaemonsetAnnotations = clearCanaryAnnotations(newDaemonset)
 	}
 
